@@ -1056,7 +1056,6 @@ func (fx *fctx) settleDirty(states []*State, n ast.Node) {
 	}
 }
 
-
 // mapValsFact: the declared fact about values of the immutable package-level map denoted by x, instantiated for v.
 func (fx *fctx) mapValsFact(st *State, x ast.Expr, v *Value) *Term {
 	e := fx.e
